@@ -110,15 +110,7 @@ func resolveIdle(p *core.Prog) []*idleRoles {
 }
 
 func fieldsOfNamed(n *types.Named) []*types.Var {
-	st, ok := n.Underlying().(*types.Struct)
-	if !ok {
-		return nil
-	}
-	var out []*types.Var
-	for i := 0; i < st.NumFields(); i++ {
-		out = append(out, st.Field(i))
-	}
-	return out
+	return core.FlatFields(n)
 }
 
 func isPtrTo(t types.Type, pkg, name string) bool {
@@ -445,6 +437,25 @@ func runC20(c *core.Ctx) {
 						}
 					}
 				})
+				// a plain function that delivers the event on the context it is handed is a call-out as well
+				core.AllInstrs(f, func(in ssa.Instruction) {
+					call, ok := in.(*ssa.Call)
+					if !ok || call.Call.IsInvoke() {
+						return
+					}
+					cal := call.Call.StaticCallee()
+					if cal == nil || cal.Parent() != nil || cal.Signature.Recv() != nil || !p.InRepo(cal) {
+						return
+					}
+					tq := &core.Query{P: p, MaxDepth: 2, Pred: func(x ssa.Instruction) bool {
+						xc := core.CallCommon(x)
+						return xc != nil && xc.IsInvoke() && xc.Method.Name() == "Trigger"
+					}}
+					if tq.May(cal, nil) {
+						c.Instance("R6")
+						c.Check(ir.lockOf(p, in) == "", "R6", tn+"/callout-outside-lock/"+core.FName(f)+"/Trigger", p.InstrPos(in), "call-out made outside the handler's lock", "a handler call-out is made while holding the handler's lock (re-entrant events deadlock)")
+					}
+				})
 				// callbacks outside the lock
 				core.AllInstrs(f, func(in ssa.Instruction) {
 					cc := core.CallCommon(in)
@@ -460,8 +471,29 @@ func runC20(c *core.Ctx) {
 		}
 	}
 	// ---- R5 (shared with C07)
+	// recover frames that belong to the idle callbacks: in the callback's closures or in a function it calls
+	idleFrames := map[string]bool{}
+	for _, ir := range idles {
+		if ir.callback == nil {
+			continue
+		}
+		for _, f := range calleesWithin(p, ir.callback, 2) {
+			idleFrames["/recover/"+core.FName(f)] = true
+		}
+	}
 	importObligations(c, runC07, "R5", func(o *core.Obligation) bool {
-		return strings.Contains(o.Key, "timer-trigger") || strings.Contains(o.Key, "recover-not-deferred") || (strings.Contains(o.Key, "/recover/") && strings.Contains(o.Key, "IdleHandler")) || strings.Contains(o.Key, "root/AfterFunc")
+		if strings.Contains(o.Key, "/recover/") {
+			if strings.Contains(o.Key, "IdleHandler") {
+				return true
+			}
+			for k := range idleFrames {
+				if strings.HasSuffix(o.Key, k) || strings.Contains(o.Key, k+"$") {
+					return true
+				}
+			}
+			return false
+		}
+		return strings.Contains(o.Key, "timer-trigger") || strings.Contains(o.Key, "recover-not-deferred") || strings.Contains(o.Key, "root/AfterFunc")
 	})
 }
 
@@ -724,4 +756,32 @@ func forwardOnce(c *core.Ctx, p *core.Prog, fn *ssa.Function, member, tn, R stri
 		}
 	}
 	c.Check(bad == nil && okArgs && !twice && len(calls) > 0, R, tn+"/"+member+"/forwards-once", p.Pos(fn.Pos()), "forwards the event exactly once with its own argument", "the handler does not forward the event exactly once, unmodified, on every path", p.PathString(path, bad)...)
+}
+
+// calleesWithin: fn, its closures, and the repository functions they call statically, to the given depth.
+func calleesWithin(p *core.Prog, fn *ssa.Function, depth int) []*ssa.Function {
+	seen := map[*ssa.Function]bool{}
+	var out []*ssa.Function
+	var walk func(f *ssa.Function, d int)
+	walk = func(f *ssa.Function, d int) {
+		for _, g := range core.WithAnon(f) {
+			if seen[g] {
+				continue
+			}
+			seen[g] = true
+			out = append(out, g)
+			if d >= depth {
+				continue
+			}
+			core.AllInstrs(g, func(in ssa.Instruction) {
+				if cc := core.CallCommon(in); cc != nil && !cc.IsInvoke() {
+					if cal := cc.StaticCallee(); cal != nil && p.InRepo(cal) && cal.Parent() == nil {
+						walk(cal, d+1)
+					}
+				}
+			})
+		}
+	}
+	walk(fn, 0)
+	return out
 }
